@@ -1381,7 +1381,7 @@ func (client *client) pollInflights() (cont bool, err error) {
 			// The Server need not use the same set of Subscription Identifiers in the retransmitted PUBLISH packet.
 			m.SubscriptionIdentifier = nil
 			client.pl.markUsedLocked(id)
-			client.write(gmqtt.MessageToPublish(m.Message, client.version))
+			client.write(client.publishWithRemainingExpiry(time.Now(), v, m.Message))
 		case *queue.Pubrel:
 			client.write(&packets.Pubrel{PacketID: id})
 		}
@@ -1390,28 +1390,40 @@ func (client *client) pollInflights() (cont bool, err error) {
 	return true, nil
 }
 
+// publishWithRemainingExpiry builds the PUBLISH for a queued message. A v5 client is given the remaining
+// lifetime: the original Message Expiry Interval minus the whole seconds the message has waited since it was
+// queued (at least 1). The stored message keeps the original interval, so a retransmission ages correctly.
+func (client *client) publishWithRemainingExpiry(now time.Time, elem *queue.Elem, msg *gmqtt.Message) *packets.Publish {
+	pub := gmqtt.MessageToPublish(msg, client.version)
+	if client.version == packets.Version5 && msg.MessageExpiry != 0 {
+		remaining := msg.MessageExpiry
+		if waited := now.Sub(elem.At); waited > 0 {
+			if d := uint32(waited / time.Second); d < remaining {
+				remaining -= d
+			} else {
+				remaining = 1
+			}
+		}
+		pub.Properties.MessageExpiry = &remaining
+	}
+	return pub
+}
+
 func (client *client) pollNewMessages(ids []packets.PacketID) (unused []packets.PacketID, err error) {
-	now := time.Now()
 	var elems []*queue.Elem
 	elems, err = client.queueStore.Read(ids)
 	if err != nil {
 		return nil, err
 	}
+	// Read may have waited for a long time: take the clock afterwards
+	now := time.Now()
 	for _, v := range elems {
 		switch m := v.MessageWithID.(type) {
 		case *queue.Publish:
 			if m.QoS != packets.Qos0 {
 				ids = ids[1:]
 			}
-			if client.version == packets.Version5 && m.Message.MessageExpiry != 0 {
-				// forward the remaining lifetime: the original interval minus the time the message waited
-				if d := uint32(now.Sub(v.At).Seconds()); d < m.Message.MessageExpiry {
-					m.Message.MessageExpiry -= d
-				} else {
-					m.Message.MessageExpiry = 1
-				}
-			}
-			client.write(gmqtt.MessageToPublish(m.Message, client.version))
+			client.write(client.publishWithRemainingExpiry(now, v, m.Message))
 		case *queue.Pubrel:
 		}
 	}
